@@ -18,6 +18,9 @@ func famC05Kinds1() []explore.Event {
 		ev("cmd", 0, `UID FETCH 1:* (FLAGS)`),
 		ev("cmd", 0, `STORE 1 +FLAGS (\Flagged)`),
 		ev("cmd", 0, `UID STORE 1:* -FLAGS (\Flagged)`),
+		ev("cmd", 0, `STORE 1 +FLAGS.SILENT (\Flagged)`),
+		ev("cmd", 0, `UID STORE 1:* FLAGS.SILENT (\Seen)`),
+		ev("cmd", 0, `FETCH 1 (BODY[])`),
 		ev("cmd", 0, `SEARCH ALL`),
 		ev("cmd", 0, `UID SEARCH ALL`),
 		ev("cmd", 0, `NOOP`),
